@@ -334,6 +334,11 @@ class TaskManager(rpu.ClientComponent):
                 tasks = list()
                 for task in self._tasks.values():
 
+                    # only tasks of *this* pilot are affected, and only if
+                    # they did not reach a final state yet
+                    if task.pilot != pid or task.state in rps.FINAL:
+                        continue
+
                     update = {'uid'             : task.uid,
                               'exception'       : 'RuntimeError("pilot died")',
                               'exception_detail': 'pilot %s is final' % pid,
